@@ -209,6 +209,45 @@ func checkCase(c *Case) (err error) {
 		return fmt.Errorf("configuration %+v rejected: %v", c, e)
 	}
 	desc := fmt.Sprintf("globals=%+v defaultOptionsAt=%d: ", c.Globals, c.DefaultAt)
+	// a router without any route answers everything through the no-route handler, with that handler's chain
+	empty := func(state string) error {
+		for _, q := range [][2]string{{"GET", "/nothing"}, {"OPTIONS", "/nothing"}, {"OPTIONS", "*"}, {"POST", "/redir/"}, {"BREW", "/r0/x"}, {"GET", "/"}} {
+			want := append(c.globalsFor(fox.NoRouteHandler), "H:noroute")
+			if err := expectTrace(serve(f, q[0], q[1]), want); err != nil {
+				return fmt.Errorf("%s%s, request %s %s, no-route handler: %w", desc, state, q[0], q[1], err)
+			}
+		}
+		return nil
+	}
+	if err := empty("router without any route yet"); err != nil {
+		return err
+	}
+	defer func() {
+		if err != nil {
+			return
+		}
+		// the same once every route is gone again: deleted one by one, or truncated in one transaction
+		if len(c.Routes)%2 == 0 {
+			var all [][2]string
+			for m, rte := range f.Iter().All() {
+				all = append(all, [2]string{m, rte.Pattern()})
+			}
+			for _, mp := range all {
+				if _, e := f.Delete(mp[0], mp[1]); e != nil {
+					err = fmt.Errorf("%sdeleting %s %s: %v", desc, mp[0], mp[1], e)
+					return
+				}
+			}
+		} else if e := f.Updates(func(txn *fox.Txn) error { return txn.Truncate() }); e != nil {
+			err = fmt.Errorf("%struncating: %v", desc, e)
+			return
+		}
+		if n := f.Len(); n != 0 {
+			err = fmt.Errorf("%sLen() = %d after removing every route", desc, n)
+			return
+		}
+		err = empty("router emptied again")
+	}()
 	// routes: /r<i> (plain), plus one redirecting route
 	for i, rc := range c.Routes {
 		if _, err := f.Handle("GET", routePattern(i), endpoint(fmt.Sprintf("r%d", i), 200), routeOpts("m", i, rc.N)...); err != nil {
